@@ -184,6 +184,8 @@ INSTANCE_VALUES = [
     ("false", False), ("[]", []), ("[a]", ["a"]), ("[a,b]", ["a", "b"]), ("[a,b,c]", ["a", "b", "c"]), ('"123"', "123"), ('"12"', "12"),
     ('"2024-01-15"', "2024-01-15"), ('"2023-02-29"', "2023-02-29"), ('"2024-01-15T10:30:00Z"', "2024-01-15T10:30:00Z"),
     ('"2024-01-15T25:00:00"', "2024-01-15T25:00:00"), ('"a"', "a"), ('""', ""), ("null", None),
+    # text with blanks at its ends: the value in the document is the padded text, and that is what is judged
+    ('" abc"', " abc"), ('"abc  "', "abc  "), ('"ACTIVE "', "ACTIVE "), ('" X"', " X"), ('"   "', "   "), ('" 5"', " 5"), ('"a "', "a "), ('"2024-01-15 "', "2024-01-15 "),
 ]
 
 
